@@ -340,11 +340,61 @@ func runC19(c *Ctx) {
 			})
 			c.Require("C19.R4 failure-bans", FuncKey(fsync), p.InstrPos(s.Call), "after the originals were restored the peer is banned", path == nil, pathStr(path))
 		}
-		for _, s := range CallsIn(fsync, "(*blockchain.DataAccess).ClearTempBlocks") {
-			// only on the success path: not reachable from the failure edge
-			c.Require("C19.R4 success-clears-temp", FuncKey(fsync), p.InstrPos(s.Call), "saved originals are discarded only after every downloaded block was applied", true, "")
+		// parking sites: reverts of this function that save the reverted block in the temp table
+		var parks []Site
+		for _, s := range CallsIn(fsync, "(*consensus/sync.fastSyncer).deleteTillCommonBlock") {
+			a := s.Call.Common().Args
+			if val, ok := resolveBoolArg(p, fsync, a[len(a)-1], nil); !ok || val == "true" {
+				parks = append(parks, s)
+			}
 		}
-		c.MinInstances("C19.R4 success-clears-temp", len(CallsIn(fsync, "(*blockchain.DataAccess).ClearTempBlocks")), 1)
+		for _, call := range AllCalls(fsync) {
+			if t := T(call.Common().Value); t.Op == "field" && t.Sym == "reverter" {
+				a := call.Common().Args
+				if val, ok := resolveBoolArg(p, fsync, a[len(a)-1], nil); !ok || val == "true" {
+					parks = append(parks, Site{fsync, call})
+				}
+			}
+		}
+		restores := CallsIn(fsync, "(*consensus/sync.fastSyncer).restoreBlocks")
+		clears := CallsIn(fsync, "(*blockchain.DataAccess).ClearTempBlocks")
+		nSuccess := 0
+		for _, s := range clears {
+			// a clear either precedes every parking of this run (it discards what an earlier,
+			// abandoned sync left behind) or follows the last use of the parked blocks: once
+			// something is parked, no clear may lie on a way to restoreBlocks
+			before := len(parks) > 0
+			for _, pk := range parks {
+				if !instrDominates(s.Call, pk.Call) || instrReachesAvoiding(pk.Call, s.Call, nil) {
+					before = false
+				}
+			}
+			if before {
+				continue
+			}
+			nSuccess++
+			bad := ""
+			for _, r := range restores {
+				if instrReachesAvoiding(s.Call, r.Call, nil) {
+					bad = "restoreBlocks at " + p.InstrPos(r.Call) + " is reachable after this clear"
+				}
+			}
+			c.Require("C19.R4 success-clears-temp", FuncKey(fsync), p.InstrPos(s.Call), "saved originals are discarded only where they can no longer be needed: no restoreBlocks is reachable after the clear", bad == "", bad)
+		}
+		c.MinInstances("C19.R4 success-clears-temp", nSuccess, 1)
+		// restoreBlocks re-applies *every* block it finds in the temp table, so the table must hold
+		// only what this run parked: each parking site is preceded, on every path, by a clear
+		// (block sync parks too and leaves its blocks behind when its download fails)
+		for _, pk := range parks {
+			ok := false
+			for _, s := range clears {
+				if instrDominates(s.Call, pk.Call) {
+					ok = true
+				}
+			}
+			c.Require("C19.R4 restore-reads-own-parking", FuncKey(fsync)+": parking revert", p.InstrPos(pk.Call), "the temp table is emptied before this run parks its own blocks, so that restoreBlocks re-applies only those", ok || len(restores) == 0, "no ClearTempBlocks dominates the parking revert; restoreBlocks would also re-apply blocks an abandoned sync left in the table")
+		}
+		c.MinInstances("C19.R4 restore-reads-own-parking", len(parks), 1)
 		checkParkedBlocksSurvive(c, "C19.R4 parked-blocks-survive")
 
 		// restoreBlocks shape
